@@ -280,3 +280,60 @@ package core
 //@   modifies anything
 //@   ensures core.pasteDepth == old(core.pasteDepth) && macrosOK(core) && childrenOK() && len(core.macro) == old(len(core.macro))
 //@   ensures core.macro == old(core.macro) && forall(k, string, has(core.macro, k) == old(has(core.macro, k)) && core.macro[k] == old(core.macro[k]))
+
+// ---------------------------------------------------------------------------
+// Catalog construction, per-directive handlers (C03: the fault is rejected and located on the offending directive).
+// namedParam(d, k): the value NamedParameter(k) returns.
+//@ pred hasParam(d *directive.Directive, k string) := d.namedParameters != nil && has(d.namedParameters, k) && d.namedParameters[k] != ""
+//@ pred atKeyword(e *jerr.JApiError, d *directive.Directive) := e != nil && e.File == d.keywordCoords.file && e.Index == d.keywordCoords.begin
+
+//@ func (*JApiCore).addJSight(core, d)
+//@   property C03,C05
+//@   requires core != nil && core.catalog != nil && directive.dirOK(d)
+//@   modifies core.catalog.JSightVersion
+//@   ensures[C03,@missing-parameter] imp(!hasParam(d, "Version"), atKeyword(result, d))
+//@   ensures[C03,@unsupported-version] imp(hasParam(d, "Version") && d.namedParameters["Version"] != "0.3", atKeyword(result, d))
+//@   ensures[C03,@forbidden-annotation] imp(d.Annotation != "", atKeyword(result, d))
+//@   ensures[C03,@jsight-repeated] imp(old(core.catalog.JSightVersion) != "", atKeyword(result, d))
+//@   ensures[C05,@jsight-version] imp(result == nil, core.catalog.JSightVersion == "0.3")
+//@   ensures imp(result != nil, atKeyword(result, d) && core.catalog.JSightVersion == old(core.catalog.JSightVersion))
+
+//@ func (*JApiCore).addTitle(core, d)
+//@   property C03,C01
+//@   requires core != nil && core.catalog != nil && directive.dirOK(d)
+//@   requires[C01,@info-before-title] core.catalog.Info != nil
+//@   modifies core.catalog.Info.Title
+//@   ensures[C03,@missing-parameter] imp(!hasParam(d, "Title"), atKeyword(result, d))
+//@   ensures[C03,@forbidden-annotation] imp(d.Annotation != "", atKeyword(result, d))
+//@   ensures[C03,@title-repeated] imp(old(core.catalog.Info.Title) != "", atKeyword(result, d))
+//@   ensures imp(result != nil, atKeyword(result, d) && core.catalog.Info.Title == old(core.catalog.Info.Title))
+
+//@ func (*JApiCore).addVersion(core, d)
+//@   property C03,C01
+//@   requires core != nil && core.catalog != nil && directive.dirOK(d)
+//@   requires[C01,@info-before-version] core.catalog.Info != nil
+//@   modifies core.catalog.Info.Version
+//@   ensures[C03,@missing-parameter] imp(!hasParam(d, "Version"), atKeyword(result, d))
+//@   ensures[C03,@forbidden-annotation] imp(d.Annotation != "", atKeyword(result, d))
+//@   ensures[C03,@version-repeated] imp(old(core.catalog.Info.Version) != "", atKeyword(result, d))
+//@   ensures imp(result != nil, atKeyword(result, d) && core.catalog.Info.Version == old(core.catalog.Info.Version))
+
+//@ func (*JApiCore).addServer(core, d)
+//@   property C03,C05
+//@   requires core != nil && catalog.catInv(core.catalog) && directive.dirOK(d)
+//@   modifies fields(core.catalog.Servers), core.catalog.Servers.data[:], core.catalog.Servers.order[:]
+//@   ensures[C03,@missing-parameter] imp(!hasParam(d, "Name"), atKeyword(result, d))
+//@   ensures[C03,@duplicate-server] imp(hasParam(d, "Name") && old(has(core.catalog.Servers.data, d.namedParameters["Name"])), atKeyword(result, d))
+//@   ensures imp(result != nil, atKeyword(result, d))
+//@   ensures catalog.catInv(core.catalog)
+
+//@ func (*JApiCore).buildCatalog(core)
+//@   property C03
+//@   requires core != nil && dirsOK(core.directivesWithPastes) && handlersOK(core)
+//@   modifies anything
+//@   ensures[C03,@jsight-first] imp(old(len(core.directivesWithPastes)) > 0 && old(core.directivesWithPastes[0].type_) != directive.Jsight, result != nil
+//@       && result.File == old(core.directivesWithPastes[0].keywordCoords.file) && result.Index == old(core.directivesWithPastes[0].keywordCoords.begin))
+//@ func (*JApiCore).addDirectives(core)
+//@   attr trusted
+//@   requires core != nil
+//@   modifies anything
